@@ -266,6 +266,9 @@ func TestC20Grid(t *testing.T) {
 	}
 	rapid.Check(t, func(rt *rapid.T) {
 		qs := genQuads(rt)
+		if curFile != "" { // lets the driver re-run this sequence alone if an insertion or query never returns
+			writeJSON(curFile, qs)
+		}
 		v, gr := runGrid(qs, exclude)
 		col.Excluded += gr.excluded
 		labels := map[string]int{"merge": gr.merges, "grow_left": gr.growLeft, "grow_up": gr.growUp}
@@ -661,6 +664,9 @@ func TestC20Shared(t *testing.T) {
 			if o == 2 {
 				leaves++
 			}
+		}
+		if curFile != "" { // lets the driver re-run this case alone if the process wedges
+			writeJSON(curFile, c)
 		}
 		v := runShared(t, c)
 		col.Case(fmt.Sprint(c), v == "" && joins > 0 && leaves > 0, map[string]int{"join_between_samples": joins, "leave_between_samples": leaves, "member_moved_to_the_other_session": moves, "two_sessions": b2i(c.Two)}, func() any { return c })
